@@ -373,6 +373,16 @@ func checkC18(c *core.Ctx) {
 			jobs <- cur
 		}
 	} else {
+		// first the hand-kept special and scale families (a deadline then cuts only the tail of the enumeration)
+		scs := append(c18SpecialCases(), c18ScaleCases(c.Thorough())...)
+		for _, cs := range scs {
+			if c.Expired() {
+				c.NotExhaustive("scale family not completed")
+				break
+			}
+			jobs <- cs
+		}
+		c.Set("scale_family_cases", len(scs))
 		var cur *c18Case
 		st := explore.Explore(-1, func(ch *explore.Chooser) { cur = drv(ch) }, func(ch *explore.Chooser) bool {
 			cur.choices = append([]int{}, ch.Choices...)
@@ -384,15 +394,6 @@ func checkC18(c *core.Ctx) {
 		})
 		c.Count(0, st.States, st.Transitions, 0)
 		c.Set("explorer", map[string]any{"executions": st.Executions, "max_depth": st.MaxDepth, "stopped_early": st.Stopped})
-		sc := append(c18SpecialCases(), c18ScaleCases(c.Thorough())...)
-		for _, cs := range sc {
-			if c.Expired() {
-				c.NotExhaustive("scale family not completed")
-				break
-			}
-			jobs <- cs
-		}
-		c.Set("scale_family_cases", len(sc))
 	}
 	close(jobs)
 	wg.Wait()
